@@ -39,7 +39,7 @@ def run_scenarios(res, scen_list, monitor, spec_dir=SEM, tag="", timeout=1500, s
             if lrng is not None and "sql" in sc and not sc.get("nolayout") and lrng.random() < relayout_p:
                 # C11: keyword case and whitespace / line breaks between tokens change nothing - every family runs part of its
                 # statements in another layout (the monitor still judges by the meta line, which describes the statement)
-                sc["sql"] = layout.relayout(sc["sql"], lrng)
+                sc["sql"] = layout.relayout(sc["sql"], lrng, allow_fnupper=not sc.get("nofnupper"))
             scen[i + 1] = sc
             f.write(json.dumps(sc) + "\n")
     if procs > 1:
